@@ -46,6 +46,9 @@ func withSpare(v any) any {
 func snapshot(v any) any {
 	switch v := v.(type) {
 	case []any:
+		if v == nil {
+			return "nil []any" // a nil slice is not an empty one
+		}
 		full := v[:cap(v)]
 		c := make([]any, len(full)+1)
 		c[0] = len(v)
@@ -58,6 +61,9 @@ func snapshot(v any) any {
 		}
 		return c
 	case map[string]any:
+		if v == nil {
+			return "nil map[string]any"
+		}
 		c := make(map[string]any, len(v))
 		for k, x := range v {
 			c[k] = snapshot(x)
@@ -343,7 +349,13 @@ func genC07(tier, out string, sum *Summary) {
 			"join(',', "+long+") | length(@)", "sort_by("+long+", &@)[-1]", long+"[?@ == $.b[0]]", "group_by("+long+", &@) | length(@)", "reverse("+long+")[0]", "contains("+long+", 'n7') && contains(b, b[0])")
 	}
 	// operators on arrays and strings of the document (whatever they answer, the document is only read)
-	fixed = append(fixed, "a + b", "b + a", "a + [c]", "[a + b, a + a]", "b + b", "a - a", "a * b", "o + o", "[a, b][] + a", "a || b", "a + a | length(@)")
+	opTexts := []string{"a + b", "b + a", "a + [c]", "[a + b, a + a]", "b + b", "a - a", "a * b", "o + o", "[a, b][] + a", "a || b", "a + a | length(@)", "a + [`1`]", "b + ['z']"}
+	fixed = append(fixed, opTexts...)
+	opShared := withSpare(map[string]any{"a": []any{json.Number("3"), json.Number("1"), json.Number("2")}, "b": []any{"y", "x", "z"}, "c": json.Number("5"), "o": []any{map[string]any{"n": json.Number("5")}}}).(map[string]any)
+	isOp := map[string]bool{}
+	for _, t := range opTexts {
+		isOp[t] = true
+	}
 	// comparisons of large containers of ONE shared document by all goroutines at once: whatever bookkeeping a
 	// comparison keeps while it runs belongs to the call
 	bigTexts := []string{"l == r", "l != r", "w == w2", "contains([r, `1`], l)", "l == l && r == r", "[l] == [r]", "l[?@ == `-1`]", "{p: l} == {p: r}"}
@@ -401,6 +413,8 @@ func genC07(tier, out string, sum *Summary) {
 			docs[w] = shared
 			if isBig[text] {
 				docs[w] = bigShared
+			} else if isOp[text] {
+				docs[w] = opShared // one document for all goroutines, its arrays with spare capacity
 			} else if ssDocsW != nil {
 				docs[w] = ssDocsW[w]
 			} else if i%2 == 1 || i < len(fixed) {
